@@ -22,36 +22,18 @@ Theorem C18_all_cfgs_count : length all_cfgs = 1680 /\ NoDup all_cfgs.
 Proof. exact all_cfgs_count. Qed.
 Print Assumptions C18_all_cfgs_count.
 
-(* The full-strength agreement does NOT hold for the code of today:
-   `swh identify -r --no-dereference <link to a directory>` lists the
-   directory behind the link, while the link - which must not be followed -
-   is a content with a single node. *)
-Theorem C18_agree_refuted : exists c, in_scope c = true /\ in_scope_literal c = true /\
-  identify_model c = Print ODirAtLinkTarget false true true /\
-  spec c = Print OLinkText false true false /\ identify_model c <> spec c.
-Proof. exact agree_refuted. Qed.
-Print Assumptions C18_agree_refuted.
-
-(* In scope, the code differs from the specification on exactly the class
-   [known_deviation] (-r --no-dereference on a link to a directory) ... *)
-Theorem C18_deviations_exact : forall c, in_scope c = true ->
-  (identify_model c <> spec c <-> known_deviation c = true).
-Proof. exact deviations_exact. Qed.
-Print Assumptions C18_deviations_exact.
-
-(* ... and outside that class the command does what the property says: it
-   prints the SWHID of the designated object (link itself or target as
-   requested, one line per node in recursive mode), or a usage error for a
-   documented unsupported combination, or the verification exit code. *)
-Theorem C18_agree_partial : forall c, in_scope c = true -> known_deviation c = false ->
-  identify_model c = spec c.
-Proof. exact agree_partial. Qed.
-Print Assumptions C18_agree_partial.
-
-(* With `-r` honouring --no-dereference the agreement is total. *)
-Theorem C18_agree_if_repaired : forall c, in_scope c = true -> identify_repaired c = spec c.
-Proof. exact agree_repaired. Qed.
-Print Assumptions C18_agree_if_repaired.
+(* For every in-scope configuration the command does what the property says:
+   it prints the SWHID the library computes for the designated object (the
+   link itself or its target as requested; the exclusion applied to
+   directories; the name shown or not; one line per node in recursive mode),
+   or a usage error for a documented unsupported combination (verification of
+   a recursive listing; recursive listing with a non-directory type;
+   verification against an identifier that is not a core SWHID), or the
+   verification exit code.  In scope = --type auto or the type of the
+   designated object (model/Cli.v, [in_scope]): 720 configurations. *)
+Theorem C18_agree : forall c, in_scope c = true -> identify_model c = spec c.
+Proof. exact agree. Qed.
+Print Assumptions C18_agree.
 
 (* The scope contains every configuration of the literal quantifier ("type
    automatic or matching the argument") except -t directory --no-dereference
@@ -61,8 +43,7 @@ Theorem C18_scope_covers_literal : forall c, in_scope_literal c = true ->
 Proof. exact scope_covers_literal. Qed.
 Print Assumptions C18_scope_covers_literal.
 
-(* It never ends in an unhandled exception (every in-scope configuration,
-   the deviating ones included). *)
+(* It never ends in an unhandled exception. *)
 Theorem C18_no_crash : forall c, in_scope c = true -> forall cr, identify_model c <> Crash cr.
 Proof. exact no_crash. Qed.
 Print Assumptions C18_no_crash.
@@ -71,7 +52,7 @@ Print Assumptions C18_no_crash.
    designated object, 1 when it is another one, and is a usage error exactly
    for the documented unsupported combinations (recursive listing; an origin
    identifier, which is not a core SWHID). *)
-Theorem C18_verify_exit : forall c, in_scope c = true -> known_deviation c = false ->
+Theorem C18_verify_exit : forall c, in_scope c = true ->
   (identify_model c = Exit0 -> ver c = VMatch) /\
   (identify_model c = Exit1 -> ver c = VNonMatch) /\
   (ver c = VMatch -> verify_supported c = true -> identify_model c = Exit0) /\
@@ -83,40 +64,51 @@ Print Assumptions C18_verify_exit.
 (* What a successful run prints: the designated object, the exclusion applied
    only to directories and only when asked, the name shown as asked, a listing
    exactly when recursion is effective (and then of a directory). *)
-Theorem C18_print_designated : forall c o ex sh ls, in_scope c = true -> known_deviation c = false ->
+Theorem C18_print_designated : forall c o ex sh ls, in_scope c = true ->
   identify_model c = Print o ex sh ls ->
   (o, ex) = designated c /\ sh = fname c /\ ls = rec_effective c /\
   (ls = true -> is_dir_obj o = true) /\ (ex = true -> is_dir_obj o = true /\ excl c = true).
 Proof. exact print_designated. Qed.
 Print Assumptions C18_print_designated.
 
-(* The three behaviours repaired in /repo, as refutations of the old code.
+(* The four behaviours repaired in /repo, as refutations of the old code
+   (the old code is the model with one switch of [variant] turned on).
    (1) `swh identify <link->dir>`: realpath(obj) is a str -> TypeError. *)
-Theorem C18_agree_refuted_old_realpath : exists c, in_scope c = true /\ known_deviation c = false /\
+Theorem C18_agree_refuted_old_realpath : exists c, in_scope c = true /\
   nondefault c = 0 /\ identify_old_realpath c = Crash CrTypeError /\
   spec c = Print ODirAtLinkTarget false true false /\ identify_model c = spec c.
 Proof. exact agree_refuted_old_realpath. Qed.
 Print Assumptions C18_agree_refuted_old_realpath.
 
 (* (2) `swh identify -r -t directory <dir>`: ("auto" or "directory") is "auto" -> usage error. *)
-Theorem C18_agree_refuted_old_rectype : exists c, in_scope c = true /\ known_deviation c = false /\
+Theorem C18_agree_refuted_old_rectype : exists c, in_scope c = true /\
   identify_old_rectype c = Usage /\
   spec c = Print ODirAtPath false true true /\ identify_model c = spec c.
 Proof. exact agree_refuted_old_rectype. Qed.
 Print Assumptions C18_agree_refuted_old_rectype.
 
 (* (3) `swh identify --no-dereference <link->dir>`: auto-detection follows the link. *)
-Theorem C18_agree_refuted_old_autolink : exists c, in_scope c = true /\ known_deviation c = false /\
+Theorem C18_agree_refuted_old_autolink : exists c, in_scope c = true /\
   identify_old_autolink c = Print ODirAtLinkTarget false true false /\
   spec c = Print OLinkText false true false /\ identify_model c = spec c.
 Proof. exact agree_refuted_old_autolink. Qed.
 Print Assumptions C18_agree_refuted_old_autolink.
 
-(* Each old behaviour broke exactly its class of configurations. *)
-Theorem C18_old_deviations_exact : forall c, in_scope c = true -> known_deviation c = false ->
+(* (4) `swh identify -r --no-dereference <link->dir>`: the test that disables
+   -r followed the link, the directory behind it was listed. *)
+Theorem C18_agree_refuted_old_recursive_follows : exists c, in_scope c = true /\ in_scope_literal c = true /\
+  identify_old_recfollows c = Print ODirAtLinkTarget false true true /\
+  spec c = Print OLinkText false true false /\ identify_model c = spec c.
+Proof. exact agree_refuted_old_recfollows. Qed.
+Print Assumptions C18_agree_refuted_old_recursive_follows.
+
+(* Each old behaviour broke exactly its class of in-scope configurations
+   (24, 20, 16 and 24 of the 720). *)
+Theorem C18_old_deviations_exact : forall c, in_scope c = true ->
   (identify_old_realpath c <> spec c <-> old_realpath_class c = true) /\
   (identify_old_rectype c <> spec c <-> old_rectype_class c = true) /\
-  (identify_old_autolink c <> spec c <-> old_autolink_class c = true).
+  (identify_old_autolink c <> spec c <-> old_autolink_class c = true) /\
+  (identify_old_recfollows c <> spec c <-> old_recfollows_class c = true).
 Proof. exact old_deviations_exact. Qed.
 Print Assumptions C18_old_deviations_exact.
 
@@ -128,15 +120,14 @@ Theorem C18_strict_reading_differs : forall c, in_scope c = true ->
 Proof. exact strict_reading_differs. Qed.
 Print Assumptions C18_strict_reading_differs.
 
-(* Non-vacuity: in-scope, non-deviating configurations with >= 3 non-default
+(* Non-vacuity: in-scope configurations with >= 3 non-default
    options exist for the listing and the verification case; sizes of the scopes. *)
 Theorem C18_in_scope_satisfiable :
-  (exists c, in_scope c = true /\ known_deviation c = false /\ nondefault c >= 3 /\
+  (exists c, in_scope c = true /\ nondefault c >= 3 /\
              identify_model c = Print ODirAtLinkTarget true false true /\ spec c = identify_model c) /\
-  (exists c, in_scope c = true /\ known_deviation c = false /\ nondefault c >= 3 /\
+  (exists c, in_scope c = true /\ nondefault c >= 3 /\
              identify_model c = Exit0 /\ spec c = Exit0) /\
   length (filter in_scope all_cfgs) = 720 /\
-  length (filter (fun c => in_scope c && negb (known_deviation c)) all_cfgs) = 696 /\
   length (filter in_scope_literal all_cfgs) = 672.
 Proof. exact in_scope_satisfiable. Qed.
 Print Assumptions C18_in_scope_satisfiable.
